@@ -104,7 +104,7 @@ def run_native(ws, harness, vals, profile, timeout=120):
     return dict(profile=profile, outcome="error", detail=p.stderr.strip()[-300:])
 
 
-def confirm(ws, res, meta, scratch):
+def confirm(ws, res, meta, scratch, hang_only=False):
     """Returns (reproduced?, info)."""
     if not res.failed:
         return False, "no failed property"
@@ -115,9 +115,12 @@ def confirm(ws, res, meta, scratch):
     if trace is None:
         return False, "no trace for %s" % prop
     vals, named = extract_inputs(trace)
-    runs = [run_native(ws, res.name, vals, "dev")]
-    runs.append(run_native(ws, res.name, vals, "release"))
-    reproduced = any(r["outcome"] in ("reproduced", "aborted", "hang") for r in runs)
+    runs = [run_native(ws, res.name, vals, "dev", timeout=30 if hang_only else 120)]
+    runs.append(run_native(ws, res.name, vals, "release", timeout=30 if hang_only else 120))
+    if hang_only:
+        reproduced = any(r["outcome"] == "hang" for r in runs)
+    else:
+        reproduced = any(r["outcome"] in ("reproduced", "aborted", "hang") for r in runs)
     g = meta.get("gen")
     info = dict(
         harness=res.name, failed_property=prop, description=desc, location=where,
